@@ -425,6 +425,26 @@ fn elect_sessions(
         .collect()
 }
 
+/// Verification access to the election function: candidates are (actor id, is_server, connection nonce)
+#[cfg(feature = "verif")]
+pub(crate) fn verif_elect(this_node_name: &str, peer_name: &str, candidates: &[(u64, bool, u64)]) -> Vec<u64> {
+    elect_sessions(
+        this_node_name,
+        peer_name,
+        candidates
+            .iter()
+            .map(|(id, is_server, nonce)| SessionElectionCandidate {
+                actor_id: ActorId::Local(*id),
+                is_server: *is_server,
+                connection_id: NonZeroU64::new(*nonce),
+            })
+            .collect(),
+    )
+    .into_iter()
+    .map(|id| id.pid())
+    .collect()
+}
+
 impl NodeServerState {
     fn register_session(
         &mut self,
